@@ -70,6 +70,15 @@ def include_programs(rng, n):
         if rng.random() < 0.7:
             top += [pp.use("E"), t(), pp.nl()]          # empty expansion followed by text
         if rng.random() < 0.5:
+            # a parenthesised group behind a body-less macro, with and without white space in front of the "(": the group
+            # is ordinary text whose bytes keep their own offsets (round-4 seeded change: offset taken at the end of the name)
+            u1 = pp.use("E", [[pp.bt("lit", "g%da" % i)], [pp.bt("lit", "g%db" % i)]])
+            u1["sp"] = True
+            top += [t(), u1, t(), pp.use("E", [[pp.bt("lit", "h%d" % i)]]), pp.nl()]
+            u2 = pp.use("MA", [[pp.bt("lit", "spaced%d" % i)]])
+            u2["sp"] = True
+            top += [u2, t(), pp.nl()]
+        if rng.random() < 0.5:
             top += [pp.use("MA", [[pp.bt("lit", "q")]], g=True), pp.tok("glued"), pp.nl()]     # usage directly followed by text
         if rng.random() < 0.5:
             top += [pp.pos("__FILE__"), pp.pos("__LINE__"), t(), pp.nl()]
